@@ -116,6 +116,17 @@ impl Profile {
                 cats: true,
                 ..base
             },
+            "mlgroups" => Profile {
+                name: "mlgroups",
+                alphabet: vec!['a', 'b', '\n'],
+                extra_input: vec!['\n', 'c'],
+                classes: false,
+                brefs: false,
+                repls: vec!["[$1|$2|$3]", "$2-$1"],
+                flagsets: vec!["m", "m", "ms", ""],
+                max_depth: 3,
+                ..base
+            },
             "brefs" => Profile { name: "brefs", alphabet: vec!['a', 'b'], flagsets: vec!["", "", "i"], max_depth: 4, ..base },
             "loops" => Profile {
                 name: "loops",
@@ -127,9 +138,10 @@ impl Profile {
             },
             "repl" => Profile {
                 name: "repl",
+                alphabet: vec!['a', 'b', 'c', 'A', 'B'],
                 random_repl: true,
                 repls: vec![],
-                flagsets: vec!["", "", "q"],
+                flagsets: vec!["", "", "q", "qi", "i"],
                 ..base
             },
             "dialect" => Profile { name: "dialect", xsd_percent: 50, flagsets: vec!["", "i", "s", "x"], ..base },
